@@ -186,7 +186,7 @@ class Check(PropertyCheck):
             if not env.action_space.contains(np.array([j, m])):
                 key = "action-space"
                 if env is not single and single.action_space.contains(np.array([j, m])) and any(
-                        a > b for a, b in zip(single.action_space.nvec, env.action_space.nvec)):
+                        a > b for a, b in zip(single.action_space.nvec, env.action_space.nvec)) and self.known_trigger:
                     # the episode's own action space holds it; the multi env's, declared from the sample instance, is smaller
                     key = "multi-env-space-undersized"
                 res.append((key, f"{what}: legal decision (job {j}, machine {m}) is not in {env.action_space}"
@@ -198,6 +198,9 @@ class Check(PropertyCheck):
         res = []
         cmd = line.split()[0]
         pad = scenario.meta["pad"] == 1
+        # the known finding (spaces declared from one sample instance) needs recirculation or several machines per
+        # operation: only then can an in-range instance be larger than the sample
+        self.known_trigger = bool(scenario.meta.get("recirc") or scenario.meta.get("multi_machine"))
         if cmd in ("env", "menv"):
             if out == "raise":
                 res.append(("construct", f"constructing the environment raised for a valid configuration: {line[:200]}"))
@@ -226,7 +229,8 @@ class Check(PropertyCheck):
                         n_nodes, n_edges = ssp["removed_nodes"].n, ssp["edge_index"].shape[1]
                         bigger = [k for k in ssp.spaces if k in sp.spaces and any(
                             a > b for a, b in zip(ssp[k].shape, sp[k].shape))]
-                        if n_nodes > sp["removed_nodes"].n or n_edges > sp["edge_index"].shape[1] or bigger:
+                        if (n_nodes > sp["removed_nodes"].n or n_edges > sp["edge_index"].shape[1] or bigger) \
+                                and self.known_trigger:
                             key = "multi-env-space-undersized"
                             why = (f": the episode needs {n_nodes} nodes / {n_edges} edges / "
                                    f"{ {k: ssp[k].shape for k in bigger} }, the spaces declared at construction from "
